@@ -62,5 +62,11 @@ MaskFactOK(e) ==
              ObserversAgree(e, MaskOp(e.o, Dec(e.a, e.n), <<>>, e))
        [] e.o \in MaskBinOps ->
              ObserversAgree(e, MaskOp(e.o, Dec(e.a, e.n), Dec(e.b, e.n), e))
+       \* count / any / all / none applied to a *vector*: they count its non-zero lanes
+       \* (e.a = the non-zero pattern of the operand, lane != 0)
+       [] e.o = "v_obs" ->
+             LET m == Dec(e.a, e.n) IN
+             /\ e.count = MCount(m)
+             /\ (e.any = 1) = MAny(m) /\ (e.all = 1) = MAll(m) /\ (e.none = 1) = MNone(m)
        [] OTHER -> FALSE
 =============================================================================
